@@ -12,6 +12,7 @@ import PC.Drv.Plan
 import PC.Drv.Api
 import PC.Drv.OsStop
 import PC.Drv.Race
+import PC.Drv.Daemon
 /-! `pcdriver <component>`: reads protocol lines on stdin, prints `model ||| verdict` per line. -/
 open PC.Drv
 
@@ -34,6 +35,7 @@ def main (args : List String) : IO UInt32 := do
   | ["api"] => loop PC.Drv.Api.step stdin stdout (); return 0
   | ["osstop"] => loop PC.Drv.OsStop.step stdin stdout (); return 0
   | ["race"] => loop PC.Drv.Race.step stdin stdout (); return 0
+  | ["daemon"] => loop PC.Drv.Daemon.step stdin stdout ({} : PC.Daemon.D); return 0
   | ["merge"] => loop PC.Drv.Merge.step stdin stdout (); return 0
   | ["update"] => loop PC.Drv.Update.step stdin stdout {}; return 0
   | _ => IO.eprintln "usage: pcdriver <component>"; return 2
